@@ -3,20 +3,13 @@ from engine import core
 from .common import TRIE_SOURCES, TRIE_STUBS
 
 INFO = {
-    "outside": "tables deeper than the template / more than TE records per node (history dimension reached through "
-               "C02's induction over Inv); depth-32/128 chains; allocation failure while building the reason list (C18)",
-    "assumptions": ["table = arbitrary trie within template(TD,TE) satisfying Inv (established for every history by C02)",
-                    "allocator never fails", "POSIX rwlock semantics (sequential model)"],
+    "outside": "tables deeper than the template or with more than TE records per node (reached only through C02's induction); depth-32/128 chains; allocation failure while building the reason list (C18)",
+    "assumptions": ['table = arbitrary trie within template(TD,TE) satisfying Inv', 'allocator never fails', 'POSIX rwlock semantics (sequential model)'],
 }
 MANIFEST = {
-    "text": "Bounded model checking of the real pfx_table_validate(_r): for an ARBITRARY Inv-valid table inside a "
-            "template and an ARBITRARY query (AS incl. 0, all prefix bits, every length, reasons on/off) the solver "
-            "decides equality with an RFC 6811 oracle evaluated by full traversal, and the exact content of the "
-            "reason list. All 2^32 (2^128) prefixes and all AS/max-length values are covered symbolically, which "
-            "sampling cannot do.",
-    "note": "Bounded: template depth 1 (quick) / 2 (thorough), <=2 records per node; Inv is assumed here and proved "
-            "inductive in C02. Trusted: oracle code in lib/trie_lib.h, allocator/rwlock models, CBMC.",
-    "technique": "CBMC symbolic execution of pfx_table_validate_r on a symbolic Inv-valid trie template vs RFC 6811 traversal oracle",
+    "text": "Bounded model checking of the real pfx_table_validate(_r): for an ARBITRARY Inv-valid table inside a template and an ARBITRARY query (AS incl. 0, all prefix bits incl. host bits, every length, reasons on/off) the solver decides equality with an RFC 6811 oracle evaluated by full traversal, and the exact content of the reason list. All 2^32 / 2^128 prefixes and all AS / max-length values are covered symbolically; the history dimension is reached through C02's induction over Inv.",
+    "note": "Bounded: template depth 1 (quick) / 2 (thorough), <=2 records per node; Inv assumed here, proved inductive in C02. Trusted: oracle code lib/trie_lib.h (flat snapshot, independent of rtrlib's search), typed size-class allocator, sequential rwlock model, CBMC.",
+    "technique": 'CBMC symbolic execution of pfx_table_validate_r on a symbolic Inv-valid trie template vs RFC 6811 traversal oracle',
 }
 
 
